@@ -35,6 +35,15 @@
 //	             the code after it emitted in both branches
 //	field reads  only those listed in the per-function parameterisation table (kernelSpec.fields,
 //	             kernelSpec.slices): the listed expression becomes a parameter of the Lean definition
+//	extensions   (switched on per kernel, see kernels_decode.go): a slice PARAMETER `p []uintN` ↦
+//	             `List (BitVec N)` (kernelSpec.sliceParams); an index expression nested in the
+//	             right-hand side of an assignment, hoisted into a preceding `match GoSem.index? ..`
+//	             (hoistIndex; never out of the right operand of && / ||); members of members of a
+//	             slice element (`x.f.M()` ↦ the projection "f.M"); a Go type table (goTypes) for
+//	             interface / pointer variables that are nilable ids or records and for slice
+//	             results (`return nil` ↦ []); string sentinels of an id type (idLean, idConsts);
+//	             opaque calls replaced by a Lean term over extra Lean parameters (opaque,
+//	             extraParams)
 package main
 
 import (
@@ -86,6 +95,25 @@ type kernelSpec struct {
 	idTypes    []string               // named Go types used as opaque identities (↦ Nat; only == and != allowed)
 	exactFloat bool                   // float64(integer expr) ↦ the exact integer; integral float constants ↦ Int
 	model      string                 // the hand-written model function it is proved equal to (documentation)
+
+	// extensions used by the kernels of kernels_decode.go (all empty for the other kernels)
+	goTypes     map[string]kType  // Go type (printed without package qualifier) ↦ its translation
+	idLean      string            // != "": the Lean type of the idTypes of this kernel (default Nat)
+	idConsts    map[string]string // string constants of an id type (sentinels) ↦ Lean term
+	sliceParams []string          // Go parameters of type []uintN / []int that become `List (BitVec N)` / `List Int`
+	extraParams []kVar            // Lean parameters without a Go counterpart (the functions of the opaque calls)
+	opaque      []kOpaque         // calls that are not translated but REPLACED by the listed Lean term
+	hoistIndex  bool              // an index expression nested in the right-hand side of an assignment is hoisted
+}
+
+// kOpaque: `x := <fun>(a1, .., an)` is replaced by the Lean term `lean` (`%1` .. `%n` = the
+// translated arguments, whose types must be `args`); the result has type `res`.  The callee is
+// NOT translated: the entry is part of the trusted base of the kernel.
+type kOpaque struct {
+	fun  string // the called function as printed source text, e.g. "sl.decodeSignal"
+	args []kType
+	res  kType
+	lean string
 }
 
 var kernelSpecs = []kernelSpec{
@@ -254,6 +282,8 @@ const (
 	kErrT                 // Go error ↦ Option Cause (nil ↦ none, a sentinel ↦ some)
 )
 
+const kFunc kKind = 101 // a Lean function parameter of an opaque call (kernelSpec.extraParams); never a Go value
+
 type kType struct {
 	k      kKind
 	w      int
@@ -270,17 +300,30 @@ func (t kType) lean() string {
 	case kBool:
 		return "Bool"
 	case kId:
+		if t.elem != "" {
+			return t.elem
+		}
 		return "Nat"
+	case kFunc:
+		return "(" + t.elem + ")"
 	case kElem:
 		return t.elem
 	case kList:
-		return "List " + t.elem
+		return "List " + leanArg(t.elem)
 	case kErrT:
 		return "Option Cause"
 	case kElemOpt:
-		return "Option " + t.elem
+		return "Option " + leanArg(t.elem)
 	}
 	return "?"
+}
+
+// leanArg parenthesises a Lean type that is an application (`BitVec 8`) for use as an argument.
+func leanArg(ty string) string {
+	if strings.Contains(ty, " ") && !strings.HasPrefix(ty, "(") {
+		return "(" + ty + ")"
+	}
+	return ty
 }
 
 func (t kType) String() string {
@@ -306,6 +349,8 @@ func (t kType) String() string {
 		return "error"
 	case kElemOpt:
 		return "nilable slice element"
+	case kFunc:
+		return "function parameter"
 	}
 	return "untyped constant"
 }
@@ -398,6 +443,50 @@ type ktr struct {
 	loopElem   string          // range variable of the enclosing loop over the state slice
 	elemGoType types.Type      // Go element type of the state slice
 	loop       *kLoopCtx
+
+	hoistOK bool    // an index expression met now is evaluated unconditionally by the current statement
+	pending []kStmt // the hoisted index expressions of the current statement
+	nhoist  int
+}
+
+// stmtHooks: statement forms of the extensions in other files (tried first, in order)
+var stmtHooks []func(t *ktr, s ast.Stmt) ([]kStmt, bool)
+
+// scalarElem: the value type of an element of a `List Int` / `List (BitVec N)` (unsigned)
+func scalarElem(elem string) (kType, bool) {
+	if elem == "Int" {
+		return kType{k: kInt}, true
+	}
+	var w int
+	if n, err := fmt.Sscanf(elem, "BitVec %d", &w); err == nil && n == 1 && fmt.Sprintf("BitVec %d", w) == elem {
+		return kType{k: kBV, w: w}, true
+	}
+	return kType{}, false
+}
+
+// hoistIndex: `s[i]` nested in an expression ↦ a fresh variable bound by a `match GoSem.index? ..`
+// that precedes the statement (an index out of range is `Res.panic`).  Only where the index
+// expression is evaluated whenever the statement is (t.hoistOK).
+func (t *ktr) hoistIndex(x *ast.IndexExpr) (string, kType) {
+	ls, lty := t.expr(x.X)
+	if lty.k != kList {
+		t.fail(x, "index into a %s (only a parameterised slice may be indexed)", lty)
+	}
+	if t.isMapParam(ls) {
+		t.fail(x, "index into the map `%s`", exprStr(x.X))
+	}
+	idx := t.value(x.Index, kType{k: kInt})
+	ety := kType{k: kElem, elem: lty.elem}
+	if st, ok := scalarElem(lty.elem); ok {
+		ety = st
+	}
+	t.nhoist++
+	name := fmt.Sprintf("at%d_", t.nhoist)
+	if _, clash := t.names[name]; clash {
+		t.fail(x, "variable name %s is reserved by the translator", name)
+	}
+	t.pending = append(t.pending, kIndex{name: name, list: ls, idx: idx, ty: ety})
+	return name, ety
 }
 
 type kLoopCtx struct {
@@ -458,10 +547,13 @@ func (t *ktr) typeOf(ty types.Type, at ast.Node) kType {
 	if t.elemGoType != nil && types.Identical(ty, t.elemGoType) {
 		return kType{k: kElemOpt, elem: t.stateSlice().elem}
 	}
+	if gt, ok := t.spec.goTypes[bareType(ty)]; ok {
+		return gt
+	}
 	if nt, ok := ty.(*types.Named); ok {
 		for _, n := range t.spec.idTypes {
 			if nt.Obj().Name() == n {
-				return kType{k: kId}
+				return kType{k: kId, elem: t.spec.idLean}
 			}
 		}
 	}
@@ -501,6 +593,11 @@ func (t *ktr) typeOf(ty types.Type, at ast.Node) kType {
 	return kType{}
 }
 
+// bareType prints a Go type without package qualifiers (the key of kernelSpec.goTypes).
+func bareType(ty types.Type) string {
+	return types.TypeString(ty, func(*types.Package) string { return "" })
+}
+
 func (t *ktr) supported(ty types.Type) bool {
 	if nt, ok := types.Unalias(ty).(*types.Named); ok {
 		for _, n := range t.spec.idTypes {
@@ -531,6 +628,14 @@ func (t *ktr) constLit(v constant.Value, ty kType, at ast.Node, asProp bool) str
 			return "False"
 		}
 		return "false"
+	}
+	if ty.k == kId {
+		if v.Kind() == constant.String {
+			if l, ok := t.spec.idConsts[constant.StringVal(v)]; ok {
+				return l
+			}
+		}
+		t.fail(at, "constant %s of an identity type that is not in the id-constant table of %s", v, t.spec.goName)
 	}
 	iv := constant.ToInt(v)
 	if iv.Kind() != constant.Int {
@@ -620,7 +725,10 @@ func (t *ktr) expr(e ast.Expr) (string, kType) {
 		}
 		t.fail(x, "field / package member read `%s` that is not in the parameterisation table of %s", exprStr(x), t.spec.goName)
 	case *ast.IndexExpr:
-		t.fail(x, "index expression `%s` that is not the whole right-hand side of a `:=` definition", exprStr(x))
+		if t.hoistOK {
+			return t.hoistIndex(x)
+		}
+		t.fail(x, "index expression `%s` that is not the whole right-hand side of a `:=` definition (a nested one is hoisted only out of the unconditionally evaluated part of an assignment, in a kernel marked hoistIndex)", exprStr(x))
 	}
 	t.fail(e, "expression `%s` (%T)", exprStr(e), e)
 	return "", kType{}
@@ -638,6 +746,12 @@ func (t *ktr) isMapParam(name string) bool {
 // projection translates `x.M()` / `x.f` for a variable x that holds an element of a
 // parameterised slice.
 func (t *ktr) projection(recv ast.Expr, member string, at ast.Expr) (string, kType, bool) {
+	if sel, isSel := unparen(recv).(*ast.SelectorExpr); isSel {
+		// x.f.M() / x.f.g: a member of a member, listed as "f.M" in the projection table
+		if _, isID := unparen(sel.X).(*ast.Ident); isID {
+			recv, member = sel.X, sel.Sel.Name+"."+member
+		}
+	}
 	id, ok := unparen(recv).(*ast.Ident)
 	if !ok {
 		return "", kType{}, false
@@ -947,10 +1061,16 @@ func (t *ktr) prop(e ast.Expr) string {
 	switch x := e.(type) {
 	case *ast.BinaryExpr:
 		switch x.Op {
-		case token.LAND:
-			return "(" + t.prop(x.X) + " ∧ " + t.prop(x.Y) + ")"
-		case token.LOR:
-			return "(" + t.prop(x.X) + " ∨ " + t.prop(x.Y) + ")"
+		case token.LAND, token.LOR:
+			a := t.prop(x.X)
+			ok := t.hoistOK
+			t.hoistOK = false // the right operand is evaluated conditionally
+			b := t.prop(x.Y)
+			t.hoistOK = ok
+			if x.Op == token.LAND {
+				return "(" + a + " ∧ " + b + ")"
+			}
+			return "(" + a + " ∨ " + b + ")"
 		case token.EQL, token.NEQ, token.LSS, token.LEQ, token.GTR, token.GEQ:
 			return t.compare(x, x.X, x.Op, x.Y)
 		}
@@ -972,6 +1092,11 @@ func (t *ktr) prop(e ast.Expr) string {
 func (t *ktr) value(e ast.Expr, want kType) string {
 	if want.k == kErrT {
 		return t.errValue(e)
+	}
+	if id, ok := unparen(e).(*ast.Ident); ok && want.k == kList {
+		if _, isNil := t.info.Uses[id].(*types.Nil); isNil {
+			return "[]" // a nil slice is the empty list
+		}
 	}
 	s, ty := t.expr(e)
 	if ty.k == kUntyped && want.k != kBool {
@@ -1102,7 +1227,26 @@ func (t *ktr) assigned(id ast.Expr) (string, kType) {
 	return name, t.typeOf(obj.Type(), x)
 }
 
+// stmt translates one statement; the index expressions hoisted out of it precede it.
 func (t *ktr) stmt(s ast.Stmt) []kStmt {
+	savedP, savedOK := t.pending, t.hoistOK
+	_, isAssign := s.(*ast.AssignStmt)
+	t.pending, t.hoistOK = nil, t.spec.hoistIndex && isAssign
+	out := t.stmt1(s)
+	pre := t.pending
+	t.pending, t.hoistOK = savedP, savedOK
+	if len(pre) == 0 {
+		return out
+	}
+	return append(pre, out...)
+}
+
+func (t *ktr) stmt1(s ast.Stmt) []kStmt {
+	for _, h := range stmtHooks {
+		if out, ok := h(t, s); ok {
+			return out
+		}
+	}
 	if as, ok := s.(*ast.AssignStmt); ok {
 		if out, ok := t.recordListStmt(as); ok {
 			return out
@@ -1756,6 +1900,27 @@ func (t *ktr) emit(ss []kStmt, ind int, k func(ind int) string) string {
 	panic(kErr{token.NoPos, fmt.Sprintf("internal: statement %T", ss[0])})
 }
 
+// sliceParam: a Go parameter `p []uintN` / `p []int` listed in kernelSpec.sliceParams is the
+// Lean parameter `p : List (BitVec N)` / `List Int` (read with len, range and index only).
+func (t *ktr) sliceParam(obj types.Object, id *ast.Ident) (kType, bool) {
+	listed := false
+	for _, n := range t.spec.sliceParams {
+		listed = listed || n == id.Name
+	}
+	if !listed || obj == nil {
+		return kType{}, false
+	}
+	st, ok := obj.Type().Underlying().(*types.Slice)
+	if !ok {
+		t.fail(id, "parameter `%s` is listed as a slice parameter but has type %s", id.Name, obj.Type())
+	}
+	et := t.typeOf(st.Elem(), id)
+	if et.k != kInt && !(et.k == kBV && !et.signed) {
+		t.fail(id, "slice parameter `%s` with elements of type %s (only int and unsigned sized integers)", id.Name, et)
+	}
+	return kType{k: kList, elem: et.lean()}, true
+}
+
 func rootIdent(e ast.Expr) *ast.Ident {
 	for {
 		switch x := e.(type) {
@@ -1872,6 +2037,15 @@ func translateKernel(spec *kernelSpec, p *packages.Package, funcs map[types.Obje
 	addParam := func(name string, ty kType) {
 		out.params = append(out.params, "("+name+" : "+ty.lean()+")")
 	}
+	for _, p := range spec.extraParams {
+		if _, clash := t.names[p.name]; clash {
+			t.fail(fd, "parameter name %s used twice", p.name)
+		}
+		t.names[p.name] = p.ty
+		t.scope = append(t.scope, p)
+		addParam(p.name, p.ty)
+		out.plain = false
+	}
 	var plist []*ast.Field
 	if fd.Recv != nil {
 		plist = append(plist, fd.Recv.List...)
@@ -1899,6 +2073,11 @@ func translateKernel(spec *kernelSpec, p *packages.Package, funcs map[types.Obje
 			}
 			// a receiver / pointer / struct parameter: replaced by the listed reads through it
 			out.plain = false
+			if lt, ok := t.sliceParam(obj, id); ok {
+				addParam(t.declare(id, lt), lt)
+				callable = false
+				continue
+			}
 			for _, f := range allFields {
 				fu := t.fields[f.expr]
 				if (fu.root != nil && t.info.Uses[fu.root] == obj && obj != nil) || (fu.root == nil && viaRoot[f.expr] == id.Name) {
